@@ -19,6 +19,7 @@
 #include "draco/compression/expert_encode.h"
 #include "draco/core/decoder_buffer.h"
 #include "draco/core/encoder_buffer.h"
+#include "draco/core/verif_hooks.h"
 #include "draco/mesh/mesh.h"
 #include "draco/point_cloud/point_cloud.h"
 
@@ -221,6 +222,32 @@ struct EncodeResult {
   size_t reported_points = 0, reported_faces = 0;
   int geometry_type = -1, method = -1;  // from the produced header
   std::vector<std::string> rejected_options;
+  std::vector<std::pair<std::string, int64_t>> events;  // code paths the encoder committed to (DRACO_VERIF_EVENT)
+  std::string event_class() const {
+    std::set<std::string> u;
+    for (auto &e : events) u.insert(e.first + "=" + std::to_string(e.second));
+    std::string k;
+    for (auto &x : u) k += x + ";";
+    return k;
+  }
+};
+
+inline std::vector<std::pair<std::string, int64_t>> *&event_sink() {
+  static thread_local std::vector<std::pair<std::string, int64_t>> *sink = nullptr;
+  return sink;
+}
+inline void on_event(const char *tag, int64_t v) {
+  if (event_sink() && event_sink()->size() < 4096) event_sink()->emplace_back(tag, v);
+}
+struct EventCapture {
+  explicit EventCapture(std::vector<std::pair<std::string, int64_t>> *dst) {
+    event_sink() = dst;
+    draco::verif::hooks().event = on_event;
+  }
+  ~EventCapture() {
+    draco::verif::hooks().event = nullptr;
+    event_sink() = nullptr;
+  }
 };
 
 template <class EncT, class KeyFn>
@@ -290,6 +317,7 @@ inline void finish_result(draco::EncoderBuffer &buf, EncodeResult *res) {
 
 inline EncodeResult encode_case(const CaseSpec &cs, const draco::PointCloud &pc) {
   EncodeResult res;
+  EventCapture capture(&res.events);
   draco::EncoderBuffer buf;
   const draco::Mesh *mesh = cs.g.is_mesh ? static_cast<const draco::Mesh *>(&pc) : nullptr;
   if (cs.o.api == 0) {
